@@ -18,20 +18,20 @@ const Self = "r"
 
 // Entry is a log entry of a scenario: term and a payload id (0 = no-op).
 type Entry struct {
-	Term    uint64 `json:"term"`
-	Payload uint64 `json:"payload,omitempty"`
+	Term    uint64   `json:"term"`
+	Payload uint64   `json:"payload,omitempty"`
 	Config  []string `json:"config,omitempty"` // non-nil: configuration entry (ids; suffix ":n" = non-voter)
 }
 
 // Seed is the durable state the real server starts from.
 type Seed struct {
-	Term     uint64   `json:"term"`
-	VoteTerm uint64   `json:"vote_term,omitempty"`
-	VoteCand string   `json:"vote_cand,omitempty"`
-	Log      []Entry  `json:"log"` // index i+First
-	First    uint64   `json:"first,omitempty"` // index of Log[0] (default 1)
-	Flavour  int      `json:"flavour,omitempty"`
-	Commit   uint64   `json:"commit,omitempty"` // persisted commit index (commit-tracking flavour)
+	Term     uint64    `json:"term"`
+	VoteTerm uint64    `json:"vote_term,omitempty"`
+	VoteCand string    `json:"vote_cand,omitempty"`
+	Log      []Entry   `json:"log"`             // index i+First
+	First    uint64    `json:"first,omitempty"` // index of Log[0] (default 1)
+	Flavour  int       `json:"flavour,omitempty"`
+	Commit   uint64    `json:"commit,omitempty"` // persisted commit index (commit-tracking flavour)
 	Snap     *SnapSeed `json:"snap,omitempty"`
 }
 
